@@ -623,8 +623,9 @@ void EGLPNUM_TYPENAME_ILLprice_column (
 
 	EGLPNUM_TYPENAME_EGlpNumZero (pr->dinfeas);
 	col = lp->nbaz[ix];
-	if (lp->vtype[col] == VARTIFICIAL || lp->vtype[col] == VFIXED)
-		return;
+	/* artificial and fixed columns never enter, but their reduced cost is
+	 * part of the solution that is handed out: it is refreshed like the others
+	 * (compute_dualI/II_inf report no infeasibility for them) */
 	EGLPNUM_TYPENAME_EGlpNumInitVar (sum);
 	EGLPNUM_TYPENAME_EGlpNumZero (sum);
 	mcnt = lp->matcnt[col];
